@@ -131,6 +131,11 @@ def factor_objects(k):
     yield "2-d array", np.array([[float(k), 2.0], [1.0, float(k)]]), [fk, F(2), F(1), fk], (2, 2)
     yield "list", [float(k), 1.0], [fk, F(1)], (2,)
     yield "Quantity", float(k) * u.dimensionless_unscaled, [fk], ()
+    # scaled dimensionless units: the factor is the Quantity's value in u.one (50 percent = 0.5)
+    qp = (float(k) * 100.0) * u.percent
+    yield "percent Quantity", qp, [F(float(qp.to_value(u.dimensionless_unscaled)))], ()
+    qk = (float(k) / 1000.0) * (u.km / u.m)
+    yield "km/m Quantity", qk, [F(float(qk.to_value(u.dimensionless_unscaled)))], ()
     if k in (1, 0):
         yield "bool", bool(k), [fk], ()
 
